@@ -822,6 +822,12 @@ clr_poss(bitint383_t *restrict cand, const bitint383_t *poss)
 		/* just shave bits off of cand */
 		for (int p = pos - prev;
 		     p > 0 && (c = bi383_next(&ci, cand), ci); p--);
+		if (UNLIKELY(!ci)) {
+			/* ran off the end, there's no such position,
+			 * the iterator has wrapped so start over next time */
+			pos = 0;
+			continue;
+		}
 		/* assign if successful */
 		if (LIKELY(c > 0)) {
 			ass_bi383(&res, c);
